@@ -41,6 +41,13 @@ TEXT = {
         "design_ref": "DESIGN.md §5 C01, §4.1", "note": RX_NOTE,
         "technique": "Lean 4 proof (invariant + induction over events) on a hand-written model; model-vs-implementation correspondence run",
     },
+    "C06": {
+        "level": "Machine-checked theorems: for every owed-reply count, every conforming script, every list of trailing frames, every read-size schedule and every interleaving of arrivals with stream polls, the "
+                 "reply-stream model yields exactly the owed frames in order, is pending only while something is owed, then ends, and the receive state has consumed a prefix of the script only (never a trailing frame); "
+                 "an all-oneway chain ends without touching the transport; enqueue*+flush is one write in chain order (via the C02 refinement). Differential run over all 1092 chain shapes.",
+        "design_ref": "DESIGN.md §5 C06", "note": RX_NOTE + " Chain/ReplyStream bookkeeping: Zlink/Model/Chain.lean tied to chain/mod.rs + reply_stream.rs by scenario `chain`.",
+        "technique": "Lean 4 proof (invariant over the poll-level receive model + index bookkeeping) on a hand-written model; model-vs-implementation correspondence run",
+    },
     "C07": {
         "level": "Machine-checked theorems: for every interleaving of partial arrivals, polls of receive futures that are dropped, and close, the non-pending outcomes are exactly "
                  "the frames sent, in order (safety), and once everything has arrived a poll is never pending while a frame is owed (completeness); the correspondence run drops or retains "
